@@ -84,12 +84,35 @@ def bt(ctx, flavours):
                 # tree[len-1] is last(); any other index is the single-edge special case tree[0]
                 if _is_len_minus_1(v[2][1]) and cfg.dominates(bi, nbi):
                     main_seed = bi
+                elif not _is_len_minus_1(v[2][1]):
+                    # the special case `tree[0]` stands for last() only when the tree has exactly one edge: it must sit on the true edge of
+                    # a test len(tree) == 1
+                    guarded = False
+                    for sb_ in sorted(cfg.reach):
+                        tt_ = b['blocks'][sb_]['term']
+                        if tt_['k'] != 'switch':
+                            continue
+                        tm_ = pv.of_operand(tt_['op'])
+                        if isinstance(tm_, tuple) and tm_ and tm_[0] == 'binop' and tm_[1] == 'Eq' and ('const', '1_usize') in tm_[2] and \
+                                any(isinstance(z, tuple) and z and z[0] == 'call' and z[1].endswith('::len') and strip_payload(z[2][0]) == P1_ for z in tm_[2]):
+                            if cfg.edge_dominates(sb_, tt_['otherwise'], bi) and tt_['otherwise'] not in [tg for v_, tg in tt_['targets'] if v_ == 0]:
+                                guarded = True
+                    if v[2][1] != ('const', '0_usize') or not guarded:
+                        seeds_ok = False
+                        seed_why.append('seed tree[%s] is pushed without len(tree) == 1 being established' % pretty(v[2][1]))
             else:
                 seeds_ok = False
                 seed_why.append('seed %s is not an element of the edge tree' % pretty(v))
         if main_seed is None:
             seeds_ok = False
             seed_why.append('the scan is not seeded with last() of the edge tree')
+        # every way out of the function has seeded the path (the single-edge special case included)
+        seed_blocks = {bi for bi, v, recv in seed_pushes if recv == path_term}
+        for rbi in cfg.returns:
+            if cfg.path_exists(0, rbi, avoiding=seed_blocks) and 0 not in seed_blocks:
+                seeds_ok = False
+                seed_why.append('a path to the return at %s pushes no edge of the tree (an edge tree is never empty, so the path must not be)' % F.where(b, rbi))
+                break
         O('BT-seed', 'path seeded with the last (closing / target) edge of the tree', seeds_ok, '; '.join(seed_why) if seed_why else 'seed = last(tree)', main_seed)
         # scan direction and range
         is_rev = 'rev' in names
@@ -299,6 +322,49 @@ def path_api(ctx, flavours):
                       any(v == 0 for v, _ in bb['term']['targets'])]
             if not eqs and not direct:
                 why.append('no test position == 0')
+            else:
+                # polarity: the edge on which position == 0 holds ("first call") selects the source / index position; the other edge the
+                # target / index position-1
+                cfg = F.cfg(b)
+                zero_e = nonzero_e = None
+                if eqs:
+                    sb_ = eqs[0]
+                    tt_ = b['blocks'][sb_]['term']
+                    opn = pv.of_operand(tt_['op'])[1]
+                    z_ = [tg for v, tg in tt_['targets'] if v == 0]
+                    f_edge, t_edge = (sb_, z_[0] if z_ else tt_['otherwise']), (sb_, tt_['otherwise'])
+                    if opn == 'Eq':
+                        zero_e, nonzero_e = t_edge, f_edge
+                    elif opn in ('Ne', 'Gt'):
+                        zero_e, nonzero_e = f_edge, t_edge
+                elif direct:
+                    sb_ = direct[0]
+                    tt_ = b['blocks'][sb_]['term']
+                    z_ = [tg for v, tg in tt_['targets'] if v == 0]
+                    zero_e, nonzero_e = (sb_, z_[0]), (sb_, tt_['otherwise'])
+                if zero_e is not None:
+                    for gbi, gt in gets:
+                        for a_ in alts(pv.of_operand(gt['args'][1])):
+                            if is_pos_minus_1(a_) and not cfg.edge_dominates(nonzero_e[0], nonzero_e[1], gbi):
+                                why.append('edges[position - 1] is read without position != 0 being established (underflow on the first call)')
+                    for bb_i, bb in enumerate(b['blocks']):
+                        if bb['cleanup'] or bb_i not in cfg.reach:
+                            continue
+                        for s_ in bb['stmts']:
+                            if s_['k'] != 'assign' or s_['rv']['k'] not in ('use', 'ref', 'aggr'):
+                                continue
+                            ops_ = s_['rv'].get('ops') or ([{'k': 'copy', 'pl': s_['rv']['pl']}] if 'pl' in s_['rv'] else [])
+                            for o_ in ops_:
+                                if o_.get('k') not in ('move', 'copy') or not o_['pl']['p']:
+                                    continue
+                                base = deep_unwrap(pv.of_local(o_['pl']['l']))
+                                last = o_['pl']['p'][-1]
+                                if isinstance(base, tuple) and base and base[0] == 'call' and base[3] in gcalls and re.match(r'^\.[01]\b', last) and last.endswith('::node::Edge'):
+                                    fld = last[1]
+                                    need = zero_e if fld == '0' else nonzero_e
+                                    other = nonzero_e if fld == '0' else zero_e
+                                    if cfg.edge_dominates(other[0], other[1], bb_i) and not cfg.edge_dominates(need[0], need[1], bb_i):
+                                        why.append('the %s of the read edge is taken on the position %s 0 branch' % ('source' if fld == '0' else 'target', '!=' if fld == '0' else '=='))
             why += _pos_increments(F, b, None)
             O(q, 'node iterator yields the root, then the target of each edge', not why, '; '.join(why) if why else 'ok')
         # last_node / last_edge / to_vec_*
@@ -317,6 +383,14 @@ def path_api(ctx, flavours):
                 cb = F.bodies.get(clos[0][1][len('closure:'):]) if len(clos) == 1 else None
                 ok = cb is not None and deep_unwrap(F.prov(cb).of_local(0)) == ('f', P2_, exp_proj)
             O(q, '%s = %s(edges)%s' % (name, want, ' target' if exp_proj else ''), ok, why)
+        q = pp + 'Path::len'
+        b = F.bodies.get(q)
+        if b is not None:
+            t = deep_unwrap(F.prov(b).of_local(0))
+            base = t[1] if isinstance(t, tuple) and t and t[0] == 'f' and isinstance(t[1], tuple) and t[1][0] == 'binop' else t
+            ok = isinstance(base, tuple) and base and base[0] == 'binop' and base[1].startswith('Add') and ('const', '1_usize') in base[2] and \
+                any(isinstance(z, tuple) and z and z[0] == 'call' and z[1].endswith('::len') and deep_unwrap(z[2][0]) == ('f', P1_, '0') for z in base[2])
+            O(q, 'len() = number of nodes = edges.len() + 1', ok, 'returns ' + pretty(t))
         q = pp + 'Path::to_vec_nodes'
         b = F.bodies.get(q)
         if b is not None:
